@@ -72,12 +72,13 @@ def build_harness():
     return _built
 
 
-def expand(reqs, threads=None):
-    """Run the in-process observer on a list of request dicts; returns list of response dicts."""
+def _expand_once(reqs, threads=None, limit_ms=None):
     b = build_harness()
     inp = "\n".join(json.dumps(r) for r in reqs) + "\n"
     env = dict(os.environ)
     env["DX_THREADS"] = str(threads or NCPU)
+    if limit_ms:
+        env["DX_EXPAND_TIMEOUT_MS"] = str(limit_ms)
     try:
         p = subprocess.run([b["expand"]], input=inp, stdout=subprocess.PIPE, stderr=subprocess.PIPE,
                            text=True, env=env, timeout=3600)
@@ -88,8 +89,23 @@ def expand(reqs, threads=None):
     out = [json.loads(l) for l in p.stdout.splitlines() if l.strip()]
     if len(out) != len(reqs):
         raise ToolError("dx-expand answered %d of %d requests" % (len(out), len(reqs)))
-    if any(r.get("class") == "not_run" for r in out):
-        raise ToolError("dx-expand: every worker was stuck; %d requests were not run" % sum(1 for r in out if r.get("class") == "not_run"))
+    return out
+
+
+def expand(reqs, threads=None):
+    """Run the in-process observer on a list of request dicts; returns list of response dicts.
+    An expansion that does not return is answered with class "timeout" (watchdog in dx-expand); requests that could not be
+    started because every worker was stuck are submitted again (shorter limit) until all have an answer."""
+    out = _expand_once(reqs, threads)
+    rounds = 0
+    while any(r.get("class") == "not_run" for r in out):
+        rounds += 1
+        if rounds > 80:
+            raise ToolError("dx-expand: requests still not run after %d rounds" % rounds)
+        idx = [i for i, r in enumerate(out) if r.get("class") == "not_run"]
+        again = _expand_once([reqs[i] for i in idx], threads, limit_ms=4000)
+        for i, r in zip(idx, again):
+            out[i] = r
     return out
 
 
